@@ -110,6 +110,10 @@ def check(model, rep):
         'chain; stored poses unchanged by pure queries; unbounded-recursion detection on the abstract call tree.')
     rep.assumptions.append('a token names one pose value along a path (expressions re-evaluated inside solver loops get one token); '
                            'external solvers (fsolve) only call the closure they are given')
+    from ..engine import peval as _pe
+    ho = _pe.resolve_higher_order(model, model.cls(SPM, 'SP'))
+    if ho:
+        rep.note('methods analysed after resolving callbacks / loops over bound methods (partial evaluation): %s' % sorted(ho))
     an = SPAnalysis(model)
     sp = an.sp
     # ---------------------------------------------------------------- R10.1
@@ -154,50 +158,90 @@ def check(model, rep):
     # ---------------------------------------------------------------- R10.3
     rep.rule('R10.3', 'validator k: switch k, constraint k, `valid and temp_valid`, corrective action only if not donothing, then '
                       'validate(True, L >= k+1); validate() calls the validators in order under limits 0..3')
+    from ..engine import peval
+    from ..engine.paths import paths_of
+    sp_methods = {n_: f_.node for n_, f_ in sp.methods.items()}
+    STOP = {c_ for (_n, _k, c_, _l) in VALIDATORS} | {n_ for n_ in sp_methods if 'CorrectiveAction' in n_ or 'Corrective' in n_ or n_.startswith('_fix')}
+    READ_ONLY = ('get', '_get')
+
+    def state_changing(callee):
+        """calls that may move the platform (anything on self that is not a getter, a constraint predicate or validate itself)"""
+        if not callee.startswith('self.'):
+            return False
+        nm = callee[5:]
+        return not (nm.startswith(READ_ONLY) or nm in STOP - {n_ for n_ in STOP if 'orrective' in n_ or n_.startswith('_fix')} or nm == 'validate'
+                    or nm.startswith('validation_'))
     for name, k, constraint, lim in VALIDATORS:
         fi = sp.methods.get(name)
         if fi is None:
             raise AnalysisError('anchor vanished: SP.' + name)
-        top = [n for n in fi.body() if isinstance(n, ast.If)]
-        ok_sw = len(top) == 1 and src(top[0].test).replace(' ', '') == 'self.validation_settings[%d]' % k
-        rep.ob('R10.3', fi, 'guarded by validation_settings[%d]' % k, ok_sw, 'validator %d is switched by %s' % (k, src(top[0].test) if top else '?'))
-        body = top[0].body if top else []
-        il = Inliner(fi)
         pv, pd = fi.params[1], fi.params[2]
-        cons = 'self.%s()' % constraint
-        comb = [n for n in body if isinstance(n, ast.Assign) and src(n.targets[0]) == pv]
-        got_c = il.text(comb[0].value) if comb else '?'
-        ok_c = len(comb) == 1 and cons in got_c
-        rep.ob('R10.3', fi, 'verdict of %s() consulted' % constraint, ok_c, 'validator %d evaluates %s' % (k, got_c))
-        ok_comb = len(comb) == 1 and got_c in ('%sand%s' % (pv, cons), '%sand%s' % (cons, pv))
-        rep.ob('R10.3', fi, 'valid = valid and <constraint verdict>', ok_comb, 'verdict is combined as %s: an earlier False can be overwritten' % got_c)
-        corr = [n for n in body if isinstance(n, ast.If) and pd in src(n.test)]
-        ok_corr = False
-        msg = 'corrective branch not recognised'
-        if len(corr) == 1:
-            t = il.text(corr[0].test)
-            guard_ok = il.same(corr[0].test, ('not %s and not %s' % (cons, pd), 'not %s and not %s' % (pd, cons)))
-            reval = [n for n in corr[0].body if isinstance(n, ast.Assign) and src(n.targets[0]) == pv]
-            # nothing that can change the platform may follow the re-validation inside the corrective branch
-            tail = corr[0].body[corr[0].body.index(reval[0]) + 1:] if len(reval) == 1 and reval[0] in corr[0].body else [None]
-            last_ok = all(t is not None and not any(isinstance(x, ast.Call) for x in ast.walk(t)) and not any(
-                isinstance(x, (ast.Attribute, ast.Subscript)) and isinstance(x.ctx, ast.Store) for x in ast.walk(t)) for t in tail)
-            rv_ok = len(reval) == 1 and last_ok and isinstance(reval[0].value, ast.Call) and src(reval[0].value.func) == 'self.validate' \
-                and len(reval[0].value.args) == 2 and src(reval[0].value.args[0]) == 'True' \
-                and isinstance(reval[0].value.args[1], ast.Constant) and reval[0].value.args[1].value >= k + 1
-            acts = [c for s in corr[0].body for c in ast.walk(s) if isinstance(c, ast.Call) and isinstance(c.func, ast.Attribute)
-                    and src(c.func.value) == 'self' and c.func.attr in ('_lengthCorrectiveAction', '_continuousTranslationCorrectiveAction', 'IK')]
-            ok_corr = guard_ok and rv_ok and len(acts) >= 1
-            msg = 'guard %s (ok=%s); re-validation %s (ok=%s); corrective calls %d' % (t, guard_ok, src(reval[0].value) if reval else '?', rv_ok, len(acts))
-        rep.ob('R10.3', fi, 'corrective action only if not donothing, then validate(True, >=%d)' % (k + 1), ok_corr, msg)
-        rets = [n for n in walk_own(fi.node) if isinstance(n, ast.Return)]
-        rep.ob('R10.3', fi, 'returns the combined verdict', len(rets) == 1 and src(rets[0].value) == pv, 'validator does not return `%s`' % pv)
+        flat = peval.flatten(sp_methods, fi.node, depth=3, stop=STOP)
+        paths = paths_of(flat, fi.params)
+        SW, C = 'self.validation_settings[%d]' % k, 'self.%s()' % constraint
+        n_off = n_on = 0
+        probs = {}
+
+        def bad(key, msg, line):
+            probs.setdefault(key, (msg, line))
+        for p_ in paths:
+            if p_.ret is None:
+                bad('every path returns a verdict', 'a path through %s falls off the end without returning a verdict' % name, fi.node.lineno)
+                continue
+            sw = p_.facts.get(SW)
+            c_calls = p_.calls(lambda c_: c_ == 'self.' + constraint)
+            acts = [e for e in p_.events if (e[0] == 'call' and state_changing(e[1])) or (e[0] == 'store' and e[1].startswith('self.') and not e[1].startswith('self.validation_error'))]
+            revals = p_.calls(lambda c_: c_ == 'self.validate')
+            if sw is None:
+                bad('guarded by validation_settings[%d]' % k, 'a path through %s does not consult its switch validation_settings[%d]' % (name, k), p_.ret_line)
+                continue
+            if sw is False:
+                n_off += 1
+                if c_calls or acts or revals:
+                    bad('switched off: nothing is evaluated or corrected', 'with the switch off the validator still calls %s' % [e[1] for e in (c_calls + acts + revals)][:3], p_.ret_line)
+                if p_.ret != pv:
+                    bad('switched off: the verdict passes through unchanged', 'with the switch off the validator returns %s instead of `%s`' % (p_.ret, pv), p_.ret_line)
+                continue
+            n_on += 1
+            if len(c_calls) != 1:
+                bad('verdict of %s() consulted' % constraint, 'the constraint %s is evaluated %d times on a path (exactly once expected)' % (constraint, len(c_calls)), p_.ret_line)
+                continue
+            ctruth = p_.facts.get(C)
+            if acts:
+                if not (ctruth is False and p_.facts.get(pd) is False):
+                    bad('corrective action only if the constraint fails and not donothing',
+                        'a corrective action (%s) runs on a path where the constraint %s and %s %s' % (
+                            acts[0][1], 'holds' if ctruth else 'was not tested', pd, 'is set' if p_.facts.get(pd) else 'was not tested'), acts[0][-1])
+                last_act = max(p_.events.index(e) for e in acts)
+                after = [e for e in revals if p_.events.index(e) > last_act]
+                okr = len(after) == 1 and len(after[0][2]) == 2 and after[0][2][0] == 'True' and after[0][2][1].lstrip('-').isdigit() and int(after[0][2][1]) >= k + 1
+                if not okr:
+                    bad('after a corrective action the state is validated again up to this stage',
+                        'after the corrective action the verdict is %s; it must be validate(True, L) with L >= %d so that this constraint is '
+                        're-checked on the corrected state' % ([('validate(%s)' % ', '.join(e[2])) for e in revals] or p_.ret, k + 1), p_.ret_line)
+                elif p_.ret != 'self.validate(%s)' % ','.join(after[0][2]):
+                    bad('the re-validation verdict is returned', 'the validator returns %s, not the verdict of the re-validation' % p_.ret, p_.ret_line)
+            else:
+                if revals:
+                    bad('no re-validation without a corrective action', 'validate() is called again although nothing was corrected', p_.ret_line)
+                ok_ret = p_.ret in ('%sand%s' % (pv, C), '%sand%s' % (C, pv)) or (ctruth is True and p_.ret == pv and False)
+                if not ok_ret:
+                    bad('valid = valid and <constraint verdict>', 'the verdict returned on a path without correction is `%s`; expected `%s and %s` '
+                        '(an earlier False, or this constraint\'s False, would be lost)' % (p_.ret, pv, C), p_.ret_line)
+        for key in ('every path returns a verdict', 'guarded by validation_settings[%d]' % k, 'switched off: nothing is evaluated or corrected',
+                    'switched off: the verdict passes through unchanged', 'verdict of %s() consulted' % constraint,
+                    'corrective action only if the constraint fails and not donothing', 'after a corrective action the state is validated again up to this stage',
+                    'the re-validation verdict is returned', 'no re-validation without a corrective action', 'valid = valid and <constraint verdict>'):
+            msg, line = probs.get(key, ('ok', None))
+            rep.ob('R10.3', fi, key, key not in probs, msg, line=line)
+        rep.ob('R10.3', fi, 'both switch positions have paths', n_off >= 1 and n_on >= 2, '%d paths with the switch off, %d with it on' % (n_off, n_on))
     v = sp.methods.get('validate')
-    rets = [n for n in walk_own(v.node) if isinstance(n, ast.Return)]
+    v_flat = peval.flatten(sp_methods, v.node, depth=1, stop=set(sp_methods))
+    rets = [n for n in ast.walk(v_flat) if isinstance(n, ast.Return)]
     acc = src(rets[0].value) if len(rets) == 1 and isinstance(rets[0].value, ast.Name) else None
     pd_, pl_ = v.params[1], v.params[2]
     chain = []
-    for n in v.body():
+    for n in v_flat.body:
         cp = cmp_parts(n.test, left=pl_) if isinstance(n, ast.If) else None
         if cp is not None and cp[1] == '>':
             cs = [x for x in n.body if isinstance(x, ast.Assign) and src(x.targets[0]) == acc]
